@@ -52,7 +52,7 @@ type c10Ctx struct {
 	err  error
 }
 
-func newC10Ctx() *c10Ctx { return &c10Ctx{Context: context.Background(), done: make(chan struct{})} }
+func newC10Ctx() *c10Ctx                { return &c10Ctx{Context: context.Background(), done: make(chan struct{})} }
 func (c *c10Ctx) Done() <-chan struct{} { return c.done }
 func (c *c10Ctx) Err() error {
 	c.mu.Lock()
@@ -104,6 +104,39 @@ type c10Case struct {
 	// setters); it must not influence the request under test, so it is not part of the model line
 	sibKind int
 	sibOps  []string
+	// URL building (round 4): `url` is the RawURL handed to Send — it may hold {placeholders} and a
+	// query string, and (urlKind "s") lack the scheme or (urlKind "r") be relative to baseURL
+	urlKind                 string
+	pathParams, cPathParams [][2]string
+	baseURL, scheme         string
+	// further Do calls on the SAME Request object: per re-send the setter calls (n=, i=) made
+	// before it; RetryAttempt and the request state are whatever the previous call left
+	resend [][]string
+	// the interval function cancels the request's context when called with this attempt number (0: never)
+	ivx int
+	// … not the function itself: another goroutine, while the wait that follows is in progress
+	// (same observable behaviour: the model line is the same)
+	ivxWait bool
+}
+
+// dynamic: the retry option / context is edited while the call is in flight, or the Request is re-sent.
+func (tc *c10Case) dynamic() bool {
+	if len(tc.resend) > 0 || tc.ivx > 0 {
+		return true
+	}
+	for _, l := range [][]string{tc.conds, tc.after} {
+		for _, p := range l {
+			if strings.Contains(p, "~") {
+				return true
+			}
+		}
+	}
+	for _, h := range tc.hooks {
+		if h[0] == 'C' || h[0] == 'I' || h[0] == 'X' {
+			return true
+		}
+	}
+	return false
 }
 
 func c10Pairs(l [][2]string) string {
@@ -140,6 +173,7 @@ func c10Toks(l []string) string {
 }
 
 func c10JSON(v string) string { return `{"k":"` + v + `"}` }
+func c10XML(v string) string  { return `<k>` + v + `</k>` }
 
 // line renders the case for the driver; obs are the observed interval durations.
 func (tc *c10Case) line(lane, mask string, obs []int64) string {
@@ -156,7 +190,7 @@ func (tc *c10Case) line(lane, mask string, obs []int64) string {
 	case 'b', 'u', 'r':
 		body = tc.body[:1] + verifh.Hex(tc.body[1:])
 	case 'm':
-		body = "m" + verifh.Hex(c10JSON(tc.body[1:]))
+		body = "m" + verifh.Hex(c10JSON(tc.body[1:])) + ":" + verifh.Hex(c10XML(tc.body[1:]))
 	}
 	ob := "-"
 	if len(obs) > 0 {
@@ -172,11 +206,93 @@ func (tc *c10Case) line(lane, mask string, obs []int64) string {
 		}
 		return "0"
 	}
+	ivx := "-"
+	if tc.ivx > 0 {
+		ivx = strconv.Itoa(tc.ivx)
+	}
+	urlT, rawQ := tc.urlTemplate()
+	script := make([]string, len(tc.script))
+	sets := make([]string, len(tc.script))
+	for i, o := range tc.script {
+		var set string
+		script[i], set, _ = strings.Cut(o, "^")
+		sets[i] = "-"
+		if set != "" {
+			var ps []string
+			for _, p := range strings.Split(set, "+") {
+				n, v, _ := strings.Cut(p, ":")
+				ps = append(ps, verifh.Hex(n)+":"+verifh.Hex(v))
+			}
+			sets[i] = strings.Join(ps, "+")
+		}
+	}
 	return strings.Join([]string{lane, mask, c10Toks(tc.clientOps), c10Toks(tc.reqOps), c10Toks(tc.conds), c10Toks(tc.hooks),
-		c10Toks(tc.after), c10Toks(tc.script), ob,
+		c10Toks(tc.after), c10Toks(script), ob,
 		c10Pairs(tc.cCookies), c10Multi(tc.cHeaders), c10Multi(tc.cForm), c10Multi(tc.cQuery), b2(tc.allowGet),
-		verifh.Hex(tc.method), verifh.Hex(tc.url), c10Pairs(tc.cookies), c10Multi(tc.headers), c10Multi(tc.form),
-		c10Pairs(tc.ordered), c10Multi(tc.query), b2(tc.multipart), files, body}, " ")
+		verifh.Hex(tc.method), urlT, c10Pairs(tc.cookies), c10Multi(tc.headers), c10Multi(tc.form),
+		c10Pairs(tc.ordered), c10Multi(tc.query), b2(tc.multipart), files, body, tc.resendTok(), ivx,
+		c10Pairs(rawQ), c10Pairs(tc.pathParams), c10Pairs(tc.cPathParams), verifh.Hex(tc.baseURL), verifh.Hex(tc.scheme), c10Toks(sets)}, " ")
+}
+
+// urlTemplate splits the RawURL of the case into what the model is given: how it starts, the path
+// as literal pieces and {placeholders}, and the query string written in it.
+func (tc *c10Case) urlTemplate() (string, [][2]string) {
+	u := tc.url
+	var rawQ [][2]string
+	if i := strings.Index(u, "?"); i >= 0 {
+		for _, p := range strings.Split(u[i+1:], "&") {
+			k, v, _ := strings.Cut(p, "=")
+			k, _ = url.QueryUnescape(k)
+			v, _ = url.QueryUnescape(v)
+			rawQ = append(rawQ, [2]string{k, v})
+		}
+		u = u[:i]
+	}
+	head := "r"
+	switch tc.urlKind {
+	case "":
+		i := strings.Index(u, "://") + 3
+		j := strings.Index(u[i:], "/")
+		if j < 0 {
+			j = len(u) - i
+		}
+		head, u = "a"+verifh.Hex(u[:i+j]), u[i+j:]
+	case "s":
+		j := strings.Index(u, "/")
+		if j < 0 {
+			j = len(u)
+		}
+		head, u = "s"+verifh.Hex(u[:j]), u[j:]
+	}
+	var segs []string
+	for u != "" {
+		i := strings.Index(u, "{")
+		j := strings.Index(u, "}")
+		if i < 0 || j < i {
+			segs = append(segs, "l"+verifh.Hex(u))
+			break
+		}
+		if i > 0 {
+			segs = append(segs, "l"+verifh.Hex(u[:i]))
+		}
+		segs = append(segs, "p"+verifh.Hex(u[i+1:j]))
+		u = u[j+1:]
+	}
+	return head + "|" + c10Toks(segs), rawQ
+}
+
+func (tc *c10Case) resendTok() string {
+	if len(tc.resend) == 0 {
+		return "-"
+	}
+	out := make([]string, len(tc.resend))
+	for i, ops := range tc.resend {
+		out[i] = "_"
+		if len(ops) > 0 {
+			out[i] = strings.Join(ops, ",")
+		}
+	}
+	return strings.Join(out, ";")
 }
 
 // c10Wire decodes what the transport was handed into the canonical form the model prints.
@@ -276,15 +392,20 @@ type c10Run struct {
 	maxRetr int
 	enabled bool
 	// structured facts for the independent oracle
-	ivAtt    []int   // attempt argument of every interval call
-	lastXAtt int     // X-Attempt of the returned response (-1: no HTTP response)
-	mutated  bool    // a hook with a non-noop action ran
-	runaway  bool
+	ivAtt       []int // attempt argument of every interval call
+	lastXAtt    int   // X-Attempt of the returned response (-1: no HTTP response)
+	mutated     bool  // a hook with a non-noop action ran
+	runaway     bool
+	wrappedRO   *retryOption // the retry option whose interval function is currently observed
+	sendStart   []int        // index into log where each Do call begins
+	sendStartRA []int        // RetryAttempt when each Do call begins
+	sendWires   []int        // len(wires) when each Do call begins
 }
 
 func (x *c10Run) outcome(i int) string {
 	if i < len(x.tc.script) {
-		return x.tc.script[i]
+		o, _, _ := strings.Cut(x.tc.script[i], "^")
+		return o
 	}
 	return "c" // every generated script ends with c; this is only reached by a runaway loop
 }
@@ -304,30 +425,54 @@ func (x *c10Run) RoundTrip(r *http.Request) (*http.Response, error) {
 		panic("c10: runaway retry loop")
 	}
 	o := x.outcome(k)
+	// responses and errors are tagged with the RetryAttempt of the attempt that produced them
+	// (= the pass index k as long as the Request is sent once; a re-sent Request goes on counting)
+	ra := x.req.RetryAttempt
 	switch o[0] {
 	case 't':
-		return nil, &c10Err{"t", k, nil}
+		return nil, &c10Err{"t", ra, nil}
 	case 'd':
-		return nil, &c10Err{"d", k, context.DeadlineExceeded}
+		return nil, &c10Err{"d", ra, context.DeadlineExceeded}
 	case 'c':
 		x.cancel()
-		return nil, &c10Err{"c", k, context.Canceled}
+		return nil, &c10Err{"c", ra, context.Canceled}
 	case 'z':
-		return nil, &c10Err{"w", k, nil}
+		return nil, &c10Err{"w", ra, nil}
 	case 'D': // the deadline of the request's own context passes during this attempt
 		x.ctx.finish(context.DeadlineExceeded)
-		return nil, &c10Err{"d", k, context.DeadlineExceeded}
+		return nil, &c10Err{"d", ra, context.DeadlineExceeded}
 	case 'L': // the response arrives, then the caller cancels the context
 		x.ctx.finish(context.Canceled)
 	}
 	code, _ := strconv.Atoi(o[1:])
 	content := "ok"
 	if o[0] == 'b' {
-		content = "bad:" + strconv.Itoa(k)
+		content = "bad:" + strconv.Itoa(ra)
+	}
+	hdr := http.Header{"X-Attempt": {strconv.Itoa(ra)}, "Content-Type": {"application/json"}}
+	if k < len(x.tc.script) {
+		c10SetCookies(hdr, x.tc.script[k])
 	}
 	return &http.Response{StatusCode: code, Status: strconv.Itoa(code) + " X", Proto: "HTTP/1.1", ProtoMajor: 1, ProtoMinor: 1,
-		Header:        http.Header{"X-Attempt": {strconv.Itoa(k)}, "Content-Type": {"application/json"}},
+		Header:        hdr,
 		ContentLength: int64(len(content)), Body: io.NopCloser(strings.NewReader(content)), Request: r}, nil
+}
+
+// c10SetCookies adds the Set-Cookie headers a script token asks for (`…^name:value+name:`; an
+// empty value expires the cookie).
+func c10SetCookies(h http.Header, tok string) {
+	_, set, _ := strings.Cut(tok, "^")
+	if set == "" {
+		return
+	}
+	for _, p := range strings.Split(set, "+") {
+		n, v, _ := strings.Cut(p, ":")
+		if v == "" {
+			h.Add("Set-Cookie", n+"=gone; Max-Age=0; Path=/")
+		} else {
+			h.Add("Set-Cookie", n+"="+v+"; Path=/")
+		}
+	}
 }
 
 func c10ErrTok(err error) string {
@@ -357,6 +502,7 @@ func (x *c10Run) obsTok(resp *Response, errTok string) string {
 
 // pred evaluates a behaviour-table predicate on what a callback can see.
 func (x *c10Run) pred(p string, resp *Response, hasErr bool) bool {
+	p, _, _ = strings.Cut(p, "~")
 	n, _ := strconv.Atoi(p[1:])
 	switch p[0] {
 	case 'E':
@@ -375,11 +521,79 @@ func (x *c10Run) pred(p string, resp *Response, hasErr bool) bool {
 	panic("c10: bad predicate " + p)
 }
 
+// edit performs an in-flight edit `c<k>` (SetRetryCount), `i<src>` (SetRetry…Interval), `x`
+// (cancel the context), optionally only `@<j>`: when the callback sees attempt number j —
+// through resp.Request, as a caller's callback would.
+func (x *c10Run) edit(e string, resp *Response) {
+	if e == "" {
+		return
+	}
+	r := x.req
+	if resp != nil && resp.Request != nil {
+		r = resp.Request
+	}
+	body, at, has := strings.Cut(e, "@")
+	if has {
+		if j, _ := strconv.Atoi(at); j != r.RetryAttempt {
+			return
+		}
+	}
+	switch body[0] {
+	case 'c':
+		k, _ := strconv.Atoi(body[1:])
+		r.SetRetryCount(k)
+		x.wrapInterval(false) // SetRetryCount creates the option (default interval) when there was none
+	case 'i':
+		x.applyOps([]string{"i=" + body[1:]}, nil, r)
+		x.wrapInterval(true)
+	case 'x':
+		x.cancel()
+	default:
+		panic("c10: bad edit " + e)
+	}
+}
+
+func c10EditOf(tok string) string {
+	_, e, _ := strings.Cut(tok, "~")
+	return e
+}
+
 func (x *c10Run) condStub(id int) RetryConditionFunc {
 	return func(resp *Response, err error) bool {
 		res := x.pred(x.tc.conds[id], resp, err != nil)
 		x.log = append(x.log, "C"+strconv.Itoa(id)+"@"+x.obsTok(resp, c10ErrTok(err))+"="+map[bool]string{true: "1", false: "0"}[res])
+		x.edit(c10EditOf(x.tc.conds[id]), resp)
 		return res
+	}
+}
+
+// wrapInterval makes the installed interval function observable: its answer is logged and
+// checked, and 0 is slept.  Called again whenever an edit may have installed another function.
+func (x *c10Run) wrapInterval(force bool) {
+	ro := x.req.retryOption
+	if ro == nil || ro.GetRetryInterval == nil || (!force && ro == x.wrappedRO) {
+		return
+	}
+	x.wrappedRO = ro
+	orig := ro.GetRetryInterval
+	ro.GetRetryInterval = func(resp *Response, attempt int) time.Duration {
+		d := orig(resp, attempt)
+		x.obs = append(x.obs, int64(d))
+		x.ivAtt = append(x.ivAtt, attempt)
+		x.log = append(x.log, "I"+strconv.Itoa(attempt)+"@"+c10View(resp)+"="+strconv.FormatInt(int64(d), 10))
+		if x.tc.ivx > 0 && x.tc.ivx == attempt {
+			if x.tc.ivxWait { // cancelled by the caller while the loop is waiting: the timer is far away
+				go func() { time.Sleep(time.Millisecond); x.cancel() }()
+				return 400 * time.Millisecond
+			}
+			x.cancel() // the interval function itself cancels the context
+		}
+		if x.ctx.Err() != nil {
+			// the wait must end through ctx.Done(): keep the timer well away so that the
+			// run is deterministic (zero intervals with a done context: lane ctxdone)
+			return 200 * time.Millisecond
+		}
+		return 0
 	}
 }
 
@@ -388,6 +602,11 @@ func (x *c10Run) hookStub(id int) RetryHookFunc {
 		x.log = append(x.log, "H"+strconv.Itoa(id)+"@"+x.obsTok(resp, c10ErrTok(err)))
 		a := x.tc.hooks[id]
 		if a == "N" {
+			return
+		}
+		switch a[0] {
+		case 'C', 'I', 'X': // edits the retry option / cancels the context, leaves the request alone
+			x.edit(strings.ToLower(a[:1])+a[1:], resp)
 			return
 		}
 		x.mutated = true
@@ -408,8 +627,16 @@ func (x *c10Run) hookStub(id int) RetryHookFunc {
 	}
 }
 
+// c10StubInterval: the stubs numbered 100 and up are "Retry-After style" — they read the response
+// they are handed (which must be the response of the attempt just made).
 func c10StubInterval(id int) GetRetryIntervalFunc {
-	return func(resp *Response, attempt int) time.Duration { return time.Duration(id*1000 + attempt) }
+	return func(resp *Response, attempt int) time.Duration {
+		d := id*1000 + attempt
+		if id >= 100 && resp != nil && resp.Response != nil {
+			d += 7 * resp.StatusCode
+		}
+		return time.Duration(d)
+	}
 }
 
 func (x *c10Run) applyOps(ops []string, c *Client, r *Request) {
@@ -499,7 +726,7 @@ func (x *c10Run) build(dir string) (*Client, *Request) {
 		x.iter++
 		x.log = append(x.log, "B"+strconv.Itoa(r.RetryAttempt))
 		if x.outcome(x.iter-1) == "e" {
-			return &c10Err{"e", x.iter - 1, nil}
+			return &c10Err{"e", r.RetryAttempt, nil}
 		}
 		return nil
 	})
@@ -545,6 +772,16 @@ func (x *c10Run) build(dir string) (*Client, *Request) {
 			c.AddCommonQueryParam(e.k, v)
 		}
 	}
+	for _, p := range tc.cPathParams {
+		c.SetCommonPathParam(p[0], p[1])
+	}
+	if tc.baseURL != "" {
+		c.SetBaseURL(tc.baseURL)
+	}
+	if tc.scheme != "" {
+		c.SetScheme(tc.scheme)
+	}
+	c.SetXmlMarshal(func(v interface{}) ([]byte, error) { return []byte(c10XML(v.(map[string]string)["k"])), nil })
 	x.applyOps(tc.clientOps, c, nil)
 
 	if len(tc.reqOps) > 0 {
@@ -563,7 +800,14 @@ func (x *c10Run) build(dir string) (*Client, *Request) {
 		r.SetCookies(&http.Cookie{Name: p[0], Value: p[1]})
 	}
 	for _, e := range tc.headers {
+		if e.k == HeaderOderKey {
+			r.SetHeaderOrder(e.vs...)
+			continue
+		}
 		r.SetHeader(e.k, e.vs[0])
+	}
+	for _, p := range tc.pathParams {
+		r.SetPathParam(p[0], p[1])
 	}
 	if len(tc.form) > 0 {
 		vals := url.Values{}
@@ -643,6 +887,7 @@ func (x *c10Run) build(dir string) (*Client, *Request) {
 				e = resp.Err
 			}
 			x.log = append(x.log, "A"+strconv.Itoa(i)+"@"+x.obsTok(resp, c10ErrTok(e)))
+			x.edit(c10EditOf(p), resp)
 			if x.pred(p, resp, e != nil) {
 				return &c10Err{"a" + strconv.Itoa(i), x.req.RetryAttempt, nil}
 			}
@@ -672,22 +917,8 @@ func (x *c10Run) build(dir string) (*Client, *Request) {
 	if ro := r.retryOption; ro != nil {
 		x.enabled = true
 		x.maxRetr = ro.MaxRetries
-		if orig := ro.GetRetryInterval; orig != nil {
-			// observe the installed interval function, do not sleep
-			ro.GetRetryInterval = func(resp *Response, attempt int) time.Duration {
-				d := orig(resp, attempt)
-				x.obs = append(x.obs, int64(d))
-				x.ivAtt = append(x.ivAtt, attempt)
-				x.log = append(x.log, "I"+strconv.Itoa(attempt)+"@"+c10View(resp)+"="+strconv.FormatInt(int64(d), 10))
-				if x.ctx.Err() != nil {
-					// the wait must end through ctx.Done(): keep the timer well away so that the
-					// run is deterministic (zero intervals with a done context: lane ctxdone)
-					return 200 * time.Millisecond
-				}
-				return 0
-			}
-		}
 	}
+	x.wrapInterval(true) // observe the installed interval function, do not sleep
 	return c, r
 }
 
@@ -699,6 +930,31 @@ func (x *c10Run) exec(dir string) {
 			c.Close()
 		}
 	}()
+	x.lastXAtt = -1
+	for si := 0; si <= len(x.tc.resend); si++ {
+		if si > 0 {
+			// the same Request object again: a fresh context, the caller's setter calls, Do
+			x.log = append(x.log, x.final)
+			x.ctx = newC10Ctx()
+			r.SetContext(x.ctx)
+			x.applyOps(x.tc.resend[si-1], nil, r)
+			newIv := false
+			for _, op := range x.tc.resend[si-1] {
+				newIv = newIv || strings.HasPrefix(op, "i=")
+			}
+			x.wrapInterval(newIv) // a freshly installed interval function must be observed too
+		}
+		x.sendStart = append(x.sendStart, len(x.log))
+		x.sendStartRA = append(x.sendStartRA, r.RetryAttempt)
+		x.sendWires = append(x.sendWires, len(x.wires))
+		if x.execOne(r) {
+			break
+		}
+	}
+}
+
+// execOne is one call of Do / Send; it reports whether the call panicked.
+func (x *c10Run) execOne(r *Request) bool {
 	var resp *Response
 	x.lastXAtt = -1
 	_, panicked := verifh.Safely(func() {
@@ -729,21 +985,125 @@ func (x *c10Run) exec(dir string) {
 			if errors.As(resp.Err, &e) {
 				es = strconv.Itoa(e.attempt) + "/" + e.kind
 			} else if resp.Err == context.Canceled || resp.Err == context.DeadlineExceeded {
-				es = strconv.Itoa(x.iter-1) + "/x" // ctx.Err() itself: handed back by the wait step
+				// ctx.Err() itself: handed back by the wait step, after RetryAttempt++
+				es = strconv.Itoa(r.RetryAttempt-1) + "/x"
 			} else {
 				es = "?/" + verifh.Hex(resp.Err.Error())
 			}
 		}
 		x.final = "R" + rs + ":" + es
 	}
+	return panicked
 }
 
-func (x *c10Run) answer() string { return strings.Join(append(append([]string{}, x.log...), x.final), " ") }
+func (x *c10Run) answer() string {
+	return strings.Join(append(append([]string{}, x.log...), x.final), " ")
+}
+
+// c10JarNames: the cookie names the script's responses set (they live in the jar, not in the request).
+func (tc *c10Case) jarNames() map[string]bool {
+	names := map[string]bool{}
+	for _, o := range tc.script {
+		if _, set, ok := strings.Cut(o, "^"); ok {
+			for _, p := range strings.Split(set, "+") {
+				n, _, _ := strings.Cut(p, ":")
+				names[n] = true
+			}
+		}
+	}
+	return names
+}
+
+// c10SplitJar takes the cookies of a canonical wire request apart: the request as req built it
+// (jar cookies removed) and the cookies that came out of the jar, in wire order.
+func c10SplitJar(wire string, names map[string]bool) (string, string) {
+	i := strings.Index(wire, "&c=")
+	j := strings.Index(wire, "&b=")
+	if len(names) == 0 || i < 0 || j < i || wire[i+3:j] == "-" {
+		return wire, ""
+	}
+	var own, jar []string
+	for _, p := range strings.Split(wire[i+3:j], ";") {
+		n, _, _ := strings.Cut(p, ":")
+		if names[verifh.UnHex(n)] {
+			jar = append(jar, p)
+		} else {
+			own = append(own, p)
+		}
+	}
+	c := "-"
+	if len(own) > 0 {
+		c = strings.Join(own, ";")
+	}
+	return wire[:i+3] + c + wire[j:], strings.Join(jar, ";")
+}
+
+// jarOracle: what the jar must hold before each script position — the Set-Cookies of the responses
+// so far, a new name appended, a known name replaced in place, an expired one removed (written
+// without the model; one origin, path /).
+func (tc *c10Case) jarOracle() []string {
+	type ck struct{ n, v string }
+	var jar []ck
+	out := make([]string, len(tc.script)+1)
+	render := func() string {
+		ps := make([]string, len(jar))
+		for i, c := range jar {
+			ps[i] = verifh.Hex(c.n) + ":" + verifh.Hex(c.v)
+		}
+		return strings.Join(ps, ";")
+	}
+	for i, o := range tc.script {
+		out[i] = render()
+		if _, set, ok := strings.Cut(o, "^"); ok {
+			for _, p := range strings.Split(set, "+") {
+				n, v, _ := strings.Cut(p, ":")
+				idx := -1
+				for k, c := range jar {
+					if c.n == n {
+						idx = k
+					}
+				}
+				switch {
+				case v == "" && idx >= 0:
+					jar = append(jar[:idx], jar[idx+1:]...)
+				case v == "":
+				case idx >= 0:
+					jar[idx].v = v
+				default:
+					jar = append(jar, ck{n, v})
+				}
+			}
+		}
+	}
+	out[len(tc.script)] = render()
+	return out
+}
+
+// checkJar: every attempt's request minus the jar's cookies is compared by the caller; here the
+// jar part of wire number i (= script position i: one wire per pass unless a middleware failed,
+// which the jar cases do not script) must be exactly what the origin has stored so far.
+func (x *c10Run) checkJar() (bool, string) {
+	names := x.tc.jarNames()
+	if len(names) == 0 {
+		return true, ""
+	}
+	want := x.tc.jarOracle()
+	for i, w := range x.wires {
+		_, jar := c10SplitJar(w, names)
+		if i < len(want) && jar != want[i] {
+			return false, fmt.Sprintf("attempt %d carries the jar cookies [%s], the origin has stored [%s]", i, jar, want[i])
+		}
+	}
+	return true, ""
+}
 
 // oracle checks the property clauses directly on the run, without the model.
 func (x *c10Run) oracle() (ok bool, why string) {
 	tc := x.tc
 	fail := func(s string) (bool, string) { return false, s }
+	if tc.dynamic() {
+		return x.oracleDyn()
+	}
 	if x.final == "refused" {
 		if len(x.wires) != 0 {
 			return fail("refused but something was sent")
@@ -764,13 +1124,19 @@ func (x *c10Run) oracle() (ok bool, why string) {
 	if !x.enabled && len(x.wires) > 1 {
 		return fail("retried without a retry option")
 	}
-	// every attempt identical unless a hook edited the request
+	// every attempt identical unless a hook edited the request — apart from the cookies the origin
+	// itself has stored in the jar meanwhile, which must be exactly those
 	if !x.mutated {
+		names := tc.jarNames()
+		w0, _ := c10SplitJar(x.wires0(), names)
 		for i := 1; i < len(x.wires); i++ {
-			if x.wires[i] != x.wires[0] {
+			if wi, _ := c10SplitJar(x.wires[i], names); wi != w0 {
 				return fail(fmt.Sprintf("attempt %d differs from attempt 0", i))
 			}
 		}
+	}
+	if ok, why := x.checkJar(); !ok {
+		return fail(why)
 	}
 	// interval function once per retry with attempt numbers 1,2,…
 	retries := x.iter - 1
@@ -862,9 +1228,145 @@ func (x *c10Run) oracle() (ok bool, why string) {
 	return true, ""
 }
 
+// oracleDyn judges runs in which the retry option is edited in flight, the context is cancelled
+// by a callback, or the Request is sent again.  It replays the event log with the edits the
+// case's stubs perform (the model is not consulted): a further attempt may only follow a pass
+// whose check — made after that pass's response middleware — finds a retry option, and a count
+// that is negative or still ABOVE the attempt counter; never after a callback cancelled the
+// context; all attempts of one Do are identical unless a hook edited the request.
+func (x *c10Run) oracleDyn() (bool, string) {
+	tc := x.tc
+	fail := func(s string) (bool, string) { return false, s }
+	if x.runaway {
+		return fail("runaway retry loop")
+	}
+	enabled, count := x.enabled, x.maxRetr
+	apply := func(e string, attempt int) (cancel bool) {
+		if e == "" {
+			return false
+		}
+		body, at, has := strings.Cut(e, "@")
+		if has {
+			if j, _ := strconv.Atoi(at); j != attempt {
+				return false
+			}
+		}
+		switch body[0] {
+		case 'c':
+			count, _ = strconv.Atoi(body[1:])
+			enabled = true
+		case 'i':
+			if !enabled {
+				count = 0
+			}
+			enabled = true
+		case 'x':
+			return true
+		}
+		return false
+	}
+	for si, start := range x.sendStart {
+		end, final, wEnd := len(x.log), x.final, len(x.wires)
+		if si+1 < len(x.sendStart) {
+			end, final, wEnd = x.sendStart[si+1]-1, x.log[x.sendStart[si+1]-1], x.sendWires[si+1]
+		}
+		if si > 0 {
+			for _, op := range tc.resend[si-1] {
+				if strings.HasPrefix(op, "n=") {
+					apply("c"+op[2:], 0)
+				} else {
+					apply("i", 0)
+				}
+			}
+		}
+		if final == "panic" || final == "nil-response" {
+			return fail("call did not return normally: " + final)
+		}
+		if final == "refused" {
+			if end != start {
+				return fail("refused but something happened")
+			}
+			continue
+		}
+		if enabled && count != 0 && tc.body[0] == 'r' {
+			return fail("unreplayable body not refused up front")
+		}
+		toks := x.log[start:end]
+		checked := false
+		var enAt bool
+		var cntAt, ra int
+		cancelled := false
+		check := func() {
+			if !checked {
+				checked, enAt, cntAt = true, enabled, count
+			}
+		}
+		for i, tk := range toks {
+			attempt := 0
+			if at := strings.Index(tk, "@"); at >= 0 {
+				attempt, _ = strconv.Atoi(strings.SplitN(tk[at+1:], "/", 2)[0])
+			}
+			switch tk[0] {
+			case 'B':
+				if i > 0 {
+					check()
+					if cancelled {
+						return fail(fmt.Sprintf("send %d: attempt after a callback cancelled the context (pass with RetryAttempt %d)", si, ra))
+					}
+					if !enAt || (cntAt >= 0 && ra >= cntAt) {
+						return fail(fmt.Sprintf("send %d: a further attempt follows the pass with RetryAttempt %d although the check of that pass found enabled=%v count=%d", si, ra, enAt, cntAt))
+					}
+				}
+				ra, _ = strconv.Atoi(tk[1:])
+				checked, cancelled = false, false
+			case 'A':
+				id, _ := strconv.Atoi(tk[1:strings.Index(tk, "@")])
+				cancelled = apply(c10EditOf(tc.after[id]), attempt) || cancelled
+			case 'C':
+				check()
+				id, _ := strconv.Atoi(tk[1:strings.Index(tk, "@")])
+				cancelled = apply(c10EditOf(tc.conds[id]), attempt) || cancelled
+			case 'H':
+				check()
+				id, _ := strconv.Atoi(tk[1:strings.Index(tk, "@")])
+				if a := tc.hooks[id]; a[0] == 'C' || a[0] == 'I' || a[0] == 'X' {
+					cancelled = apply(strings.ToLower(a[:1])+a[1:], attempt) || cancelled
+				}
+			case 'I':
+				check()
+				iv, _ := strconv.Atoi(tk[1:strings.Index(tk, "@")])
+				if tc.ivx > 0 && iv == tc.ivx {
+					cancelled = true
+				}
+			}
+		}
+		if !x.mutated {
+			names := tc.jarNames()
+			for i := x.sendWires[si] + 1; i < wEnd; i++ {
+				a, _ := c10SplitJar(x.wires[i], names)
+				b, _ := c10SplitJar(x.wires[x.sendWires[si]], names)
+				if a != b {
+					return fail(fmt.Sprintf("send %d: attempt %d differs from the first attempt of the call", si, i-x.sendWires[si]))
+				}
+			}
+		}
+	}
+	if ok, why := x.checkJar(); !ok {
+		return fail(why)
+	}
+	return true, ""
+}
+
+func (x *c10Run) wires0() string {
+	if len(x.wires) == 0 {
+		return ""
+	}
+	return x.wires[0]
+}
+
 // ---------------------------------------------------------------------------- classification
 
-var c10Bits = []string{"c10-cookie-dup", "c10-form-dup", "c10-afterresponse-overwrites-err", "c10-nil-resp-retry", "c10-filereader-not-rewound"}
+var c10Bits = []string{"c10-cookie-dup", "c10-form-dup", "c10-afterresponse-overwrites-err", "c10-nil-resp-retry", "c10-filereader-not-rewound", "c10-unreplayable-retried-in-flight"}
 
 type c10Rec struct {
 	tc       *c10Case
@@ -899,6 +1401,18 @@ func (tc *c10Case) relevantBits() []int {
 			break
 		}
 	}
+	// retries switched on in flight + a body Do would have refused
+	if tc.dynamic() {
+		unrep := tc.body[0] == 'r'
+		for _, f := range tc.files {
+			unrep = unrep || f.kind == "r" || f.kind == "o"
+		}
+		if unrep {
+			// first: for a non-rewindable upload the pre-C10-6 code (bit 4, fixed in /repo) would
+			// show the same symptom, and the smallest explanation found first names the class
+			r = append([]int{5}, r...)
+		}
+	}
 	return r
 }
 
@@ -909,7 +1423,7 @@ func (tc *c10Case) relevantBits() []int {
 func c10Finish(s *verifh.Session, recs []c10Rec) {
 	lines := make([]string, len(recs))
 	for i, r := range recs {
-		lines[i] = r.tc.line("c10run", "11111", r.obs)
+		lines[i] = r.tc.line("c10run", "111111", r.obs)
 	}
 	class := make([]string, len(recs))
 	var ans []string
@@ -929,7 +1443,7 @@ func c10Finish(s *verifh.Session, recs []c10Rec) {
 					continue
 				}
 				for sub := 1; sub < 1<<len(r.relevant); sub++ {
-					m := []byte("11111")
+					m := []byte("111111")
 					off := 0
 					for j, b := range r.relevant {
 						if sub&(1<<j) != 0 {
@@ -1160,12 +1674,120 @@ func TestVerif_C10_loop(t *testing.T) {
 			s.Count("interval-source")
 		}
 	}
+	// DYNAMIC (round 4): the retry option is edited while the call is in flight — SetRetryCount
+	// from a hook / a condition / a request-level response middleware, to a value below, at or
+	// above the attempt counter, on every call or at one attempt number —, on a request whose
+	// count starts unset / negative / positive.  The script keeps asking for retries.
+	fail8 := []string{"s503", "t", "s503", "t", "s503", "t", "s503", "t", "s200", "c"}
+	for _, n0 := range []string{"", "n=-1", "n=1", "n=2", "n=5"} {
+		for _, who := range []string{"hook", "cond", "after"} {
+			for _, k := range []int{-1, 0, 1, 2, 3, 7} {
+				for _, at := range []int{-1, 0, 1, 2, 3} {
+					tc := c10Simple()
+					tc.script = fail8
+					tc.conds, tc.hooks = []string{"T"}, []string{"N"}
+					tc.clientOps = []string{"i=f1"}
+					if n0 != "" {
+						tc.clientOps = append(tc.clientOps, n0)
+					}
+					tc.reqOps = []string{"ac0", "ah0"}
+					e := "c" + strconv.Itoa(k)
+					if at >= 0 {
+						e += "@" + strconv.Itoa(at)
+					}
+					switch who {
+					case "hook":
+						tc.hooks[0] = "C" + e[1:]
+					case "cond":
+						tc.conds[0] = "T~" + e
+					default:
+						tc.after = []string{"F~" + e}
+					}
+					tc.useSend = (k+at)%2 == 0
+					recs = append(recs, c10Exec(tc, dir))
+					s.Count("dyn:count-by-" + who)
+				}
+			}
+		}
+	}
+	// … a response middleware that switches retries ON for a request that has no retry option
+	for _, e := range []string{"c2", "c-1@0", "c1@0", "ix3", "c3@1"} {
+		tc := c10Simple()
+		tc.script = []string{"t", "t", "d", "t", "t", "s200", "c"}
+		tc.after = []string{"F~" + e}
+		recs = append(recs, c10Exec(tc, dir))
+		s.Count("dyn:enabled-in-flight")
+	}
+	// … a callback cancels the request's context: response middleware, condition, hook, the
+	// interval function itself; bounded and unbounded counts
+	for _, n0 := range []string{"n=-1", "n=5"} {
+		for _, who := range []string{"hook", "cond", "after", "ivl", "wait"} {
+			for _, at := range []int{-1, 0, 1, 2, 3} {
+				if ((who == "ivl" || who == "wait") && at < 1) || (who == "hook" && at == 0) {
+					continue
+				}
+				tc := c10Simple()
+				tc.script = fail8
+				tc.conds, tc.hooks = []string{"T"}, []string{"N", "N"}
+				tc.clientOps = []string{"i=x0", n0, "ah1"}
+				tc.reqOps = []string{"ac0", "ah0"}
+				e := "x"
+				if at >= 0 {
+					e += "@" + strconv.Itoa(at)
+				}
+				switch who {
+				case "hook":
+					tc.hooks[0] = "X" + e[1:]
+				case "cond":
+					tc.conds[0] = "T~" + e
+				case "after":
+					tc.after = []string{"F~" + e}
+				default:
+					tc.ivx, tc.ivxWait = at, who == "wait"
+				}
+				recs = append(recs, c10Exec(tc, dir))
+				s.Count("dyn:cancel-by-" + who)
+			}
+		}
+	}
+	// … a hook installs another interval function: the same retry's wait already uses it
+	for _, iv := range []string{"x5", "f3", "b100:100000", "x0"} {
+		for _, at := range []string{"", "@1", "@2"} {
+			tc := c10Simple()
+			tc.script = fail8
+			tc.hooks = []string{"I" + iv + at, "N"}
+			tc.clientOps = []string{"n=3", "i=f1", "ah1"}
+			tc.reqOps = []string{"ah0"}
+			recs = append(recs, c10Exec(tc, dir))
+			s.Count("dyn:interval-by-hook")
+		}
+	}
+	// RE-SEND: the same Request object is sent again (RetryAttempt is not reset by Do), after
+	// setter calls that give it a count below / at / above the retries already used
+	long := []string{"s503", "t", "s503", "s200", "s503", "s503", "t", "s200", "t", "s503", "s503", "s503", "s200", "s503", "c", "c", "c", "c"}
+	for _, n1 := range []string{"", "n=0", "n=1", "n=2", "n=3", "n=-1"} {
+		for _, again := range [][][]string{{{}}, {{"n=0"}}, {{"n=1"}}, {{"n=2"}}, {{"n=5"}}, {{"n=-1"}}, {{"n=1"}, {"n=4"}}, {{"i=x3"}}, {{"n=1", "i=f2"}}, {{}, {}}} {
+			tc := c10Simple()
+			tc.script = long
+			tc.conds, tc.hooks = []string{"G500", "E"}, []string{"N"}
+			tc.clientOps = []string{"i=f1", "ac0"}
+			tc.reqOps = []string{"ac1", "ah0"}
+			if n1 != "" {
+				tc.reqOps = append(tc.reqOps, n1)
+			}
+			tc.resend = again
+			tc.useSend = len(again) == 2
+			recs = append(recs, c10Exec(tc, dir))
+			s.Count("dyn:resend")
+		}
+	}
 	// random policies
 	n := verifh.N(2500, 120000)
 	for i := 0; i < n; i++ {
 		tc := c10Simple()
 		c10RandPolicy(r, tc)
 		tc.script = c10RandScript(r, 7)
+		c10RandDynamic(r, tc)
 		tc.useSend = r.Intn(2) == 0
 		if r.Intn(4) == 0 {
 			tc.method = verifh.Pick(r, []string{"POST", "PUT", "DELETE", "HEAD"})
@@ -1328,6 +1950,53 @@ func c10RandPolicy(r interface{ Intn(int) int }, tc *c10Case) {
 	}
 }
 
+// c10RandDynamic makes some random cases dynamic: a stub edits the retry option or cancels the
+// context in flight, the interval function cancels, the Request is sent again.
+func c10RandDynamic(r interface{ Intn(int) int }, tc *c10Case) {
+	c10RandEdits(r, tc, 4)
+	c10RandResend(r, tc)
+}
+
+func c10RandEdits(r interface{ Intn(int) int }, tc *c10Case, oneIn int) {
+	if r.Intn(oneIn) == 0 {
+		edits := []string{"c0", "c1", "c2", "c3", "c-1", "c1@2", "c0@1", "c2@3", "c5@1", "x@2", "x@1", "x", "ix4", "if7@1", "ib50:9000@2"}
+		e := edits[r.Intn(len(edits))]
+		switch r.Intn(4) {
+		case 0:
+			if len(tc.hooks) > 0 {
+				tc.hooks[r.Intn(len(tc.hooks))] = strings.ToUpper(e[:1]) + e[1:]
+			}
+		case 1:
+			if len(tc.conds) > 0 {
+				tc.conds[r.Intn(len(tc.conds))] += "~" + e
+			}
+		case 2:
+			if len(tc.after) == 0 {
+				tc.after = []string{"F"}
+			}
+			tc.after[r.Intn(len(tc.after))] += "~" + e
+		default:
+			tc.ivx = 1 + r.Intn(3)
+		}
+	}
+}
+
+func c10RandResend(r interface{ Intn(int) int }, tc *c10Case) {
+	if r.Intn(8) == 0 {
+		for i := 0; i <= r.Intn(2); i++ {
+			var ops []string
+			if r.Intn(3) != 0 {
+				ops = append(ops, "n="+[]string{"-1", "0", "1", "2", "3", "5"}[r.Intn(6)])
+			}
+			if r.Intn(4) == 0 {
+				ops = append(ops, "i="+[]string{"x2", "f5", "b10:1000"}[r.Intn(3)])
+			}
+			tc.resend = append(tc.resend, ops)
+			tc.script = append(tc.script, c10RandScript(r, 4)...) // every send ends at a "c" at the latest
+		}
+	}
+}
+
 // ---------------------------------------------------------------------------- wire lane
 
 const c10Alnum = "abcdefghijklmnopqrstuvwxyz0123456789"
@@ -1360,11 +2029,80 @@ func c10Text(s string) string {
 	return s
 }
 
+func c10HasKV(l []c10KV, k string) bool {
+	for _, e := range l {
+		if e.k == k {
+			return true
+		}
+	}
+	return false
+}
+
+// c10SetKV: a later Set call for the same key replaces the earlier one.
+func c10SetKV(l []c10KV, k, v string) []c10KV {
+	for i, e := range l {
+		if e.k == k {
+			l[i].vs = []string{v}
+			return l
+		}
+	}
+	return append(l, c10KV{k, []string{v}})
+}
+
 // c10RandShape draws client- and request-level cookies / headers / query / form data and a body.
-func c10RandShape(r interface{ Intn(int) int }, tc *c10Case) (mode string) {
+func c10RandShape(r interface{ Intn(int) int }, tc *c10Case, origin string, scripted bool) (mode string) {
 	tc.method = []string{"POST", "POST", "POST", "POST", "PUT", "PATCH", "DELETE", "GET", "GET", "HEAD", "OPTIONS", "POST"}[r.Intn(12)]
 	tc.allowGet = r.Intn(7) != 0
-	tc.url = "http://c10.test/" + c10Word(r, false)
+	// URL: absolute / relative to Client.BaseURL / without scheme (Client.SetScheme), with
+	// {placeholders} filled at request level, client level, both (the request wins) or not at
+	// all, and a query string of its own in front of the parameters
+	path := "/" + c10Word(r, false)
+	if r.Intn(3) == 0 {
+		names := []string{"id", "name", "zz"}
+		used := map[string]bool{}
+		for i := 0; i <= r.Intn(2); i++ {
+			n := names[r.Intn(3)]
+			path += []string{"/", "/v-", "/x/"}[r.Intn(3)] + "{" + n + "}"
+			if used[n] { // the same placeholder twice: filled alike
+				continue
+			}
+			used[n] = true
+			switch r.Intn(5) {
+			case 0:
+				tc.pathParams = append(tc.pathParams, [2]string{n, c10Word(r, true)})
+			case 1:
+				tc.cPathParams = append(tc.cPathParams, [2]string{n, c10Word(r, true)})
+			case 2:
+				tc.pathParams = append(tc.pathParams, [2]string{n, c10Word(r, true)})
+				tc.cPathParams = append(tc.cPathParams, [2]string{n, "client-" + c10Word(r, false)})
+			case 3:
+				tc.pathParams = append(tc.pathParams, [2]string{n, c10Word(r, false)})
+			}
+		}
+		if r.Intn(2) == 0 {
+			path += "/" + c10Word(r, false)
+		}
+	}
+	if r.Intn(4) == 0 {
+		path += "?" + []string{"uq", "rq", "cq"}[r.Intn(3)] + "=" + url.QueryEscape(c10Word(r, true))
+		if r.Intn(2) == 0 {
+			path += "&uq2=" + url.QueryEscape(c10Word(r, false))
+		}
+	}
+	switch k := r.Intn(10); {
+	case k == 0 || k == 1:
+		tc.urlKind = "r"
+		tc.baseURL = origin + []string{"", "/base", "/b/v1"}[r.Intn(3)]
+		tc.url = path
+		if r.Intn(3) == 0 {
+			tc.url = path[1:] // no leading slash: one is inserted
+		}
+	case k == 2 && scripted:
+		tc.urlKind, tc.scheme = "s", "http"
+		tc.url = strings.TrimPrefix(origin, "http://") + path
+	default:
+		tc.url = origin + path
+	}
 	if r.Intn(5) >= 2 {
 		for i := 0; i < 1+r.Intn(2); i++ {
 			tc.cCookies = append(tc.cCookies, [2]string{"c" + strconv.Itoa(i), c10Word(r, false)})
@@ -1389,6 +2127,10 @@ func c10RandShape(r interface{ Intn(int) int }, tc *c10Case) (mode string) {
 	}
 	if r.Intn(7) == 0 {
 		tc.headers = append(tc.headers, c10KV{"Content-Type", []string{[]string{"application/octet-stream", "text/x-req"}[r.Intn(2)]}})
+	}
+	if scripted && r.Intn(8) == 0 {
+		// SetHeaderOrder: the order keys travel in r.Headers under a magic key, up to the transport
+		tc.headers = append(tc.headers, c10KV{HeaderOderKey, [][]string{{"x-r1", "cookie", "x-c1"}, {"content-type"}, {"x-shared", "x-c1", "accept"}}[r.Intn(3)]})
 	}
 	if r.Intn(2) == 0 {
 		tc.cQuery = append(tc.cQuery, c10KV{"cq", []string{c10Word(r, true)}})
@@ -1431,6 +2173,16 @@ func c10RandShape(r interface{ Intn(int) int }, tc *c10Case) (mode string) {
 	case 4:
 		mode = "marshal"
 		tc.body = "m" + c10Word(r, false)
+		switch r.Intn(5) {
+		case 0: // an XML content type in force: the XML marshaller is used, on every attempt
+			mode = "marshal-xml"
+			tc.headers = c10SetKV(tc.headers, "Content-Type", "application/xml")
+		case 1:
+			if !c10HasKV(tc.headers, "Content-Type") {
+				mode = "marshal-xml"
+			}
+			tc.cHeaders = c10SetKV(tc.cHeaders, "Content-Type", "text/xml; charset=utf-8")
+		}
 	case 5:
 		mode = "reader"
 		tc.body = "r" + c10Text(c10Word(r, true))
@@ -1481,8 +2233,8 @@ func c10RandShape(r interface{ Intn(int) int }, tc *c10Case) (mode string) {
 		tc.multipart = true
 		tc.form = form("f")
 	}
-	// client-level form data: never together with a multipart request (C17 owns that corner)
-	if !tc.multipart && r.Intn(3) == 0 {
+	// client-level form data (merged once; since /repo c422765 also into multipart requests)
+	if r.Intn(3) == 0 {
 		tc.cForm = form([]string{"cf", "f"}[r.Intn(2)])
 	}
 	tc.trace = r.Intn(3) == 0
@@ -1528,12 +2280,33 @@ func TestVerif_C10_wire(t *testing.T) {
 	for _, w := range c10Witnesses() {
 		add(w, "witness")
 	}
+	// retries switched ON while the call is in flight (a response middleware calls SetRetryCount
+	// on resp.Request) for a request whose body cannot be replayed: Do could not refuse it up
+	// front — there was nothing to retry then
+	for _, body := range []string{"rdata-from-a-reader", "file:r", "file:o", "bbytes"} {
+		for _, n0 := range []string{"", "n=0"} {
+			for _, e := range []string{"c2", "c-1", "c1@0"} {
+				tc := &c10Case{allowGet: true, method: "POST", url: "http://c10.test/up", body: "n", after: []string{"F~" + e},
+					script: []string{"t", "t", "s200", "c"}}
+				if n0 != "" {
+					tc.reqOps = []string{n0, "i=x0"}
+				}
+				if strings.HasPrefix(body, "file:") {
+					tc.multipart = true
+					tc.files = []c10File{{param: "p0", name: "f0.txt", kind: body[5:], content: c10Text("upload-content")}}
+				} else {
+					tc.body = body
+				}
+				add(tc, "enabled-in-flight")
+			}
+		}
+	}
 	n := verifh.N(3000, 150000)
 	for i := 0; i < n; i++ {
 		tc := &c10Case{}
-		mode := c10RandShape(r, tc)
+		mode := c10RandShape(r, tc, "http://c10.test", true)
 		cnt := "n=" + []string{"-1", "0", "1", "2", "5", "2", "2", "5"}[r.Intn(8)]
-		iv := []string{"i=f1", "i=x0", "i=x3", "i=f2"}[r.Intn(4)]
+		iv := []string{"i=f1", "i=x0", "i=x3", "i=f2", "i=f100", "i=f101"}[r.Intn(6)]
 		if r.Intn(2) == 0 {
 			tc.clientOps = []string{cnt, iv}
 		} else {
@@ -1553,6 +2326,44 @@ func TestVerif_C10_wire(t *testing.T) {
 			}
 		}
 		tc.script = append(tc.script, []string{"s200", "s200", "s404", "t"}[r.Intn(4)], "c")
+		if r.Intn(5) == 0 {
+			// the origin sets / replaces / expires cookies: the jar's cookies go out with the NEXT attempt
+			for j, o := range tc.script {
+				if (o[0] == 's' || o[0] == 'b') && r.Intn(3) != 0 {
+					tc.script[j] = o + "^" + []string{"sid:a" + strconv.Itoa(j), "sid:b" + strconv.Itoa(j) + "+t:1", "t:", "t:2+u:x", "sid:"}[r.Intn(5)]
+					count("jar:set-cookie")
+				}
+			}
+		}
+		if r.Intn(8) == 0 && tc.body[0] != 'r' && len(tc.files) == 0 {
+			// the same Request once more (state carried over: headers, cookies, form data).  Not
+			// with file uploads: rewinding / reopening them is keyed on RetryAttempt > 0, so a re-send
+			// after a call without retries uploads drained or closed files — no retry is involved,
+			// outside C10 (see notes, observations)
+			tc.resend = [][]string{{}}
+			if r.Intn(2) == 0 {
+				tc.resend = [][]string{{"n=" + []string{"0", "1", "3"}[r.Intn(3)]}}
+			}
+			tc.script = append(tc.script, []string{"t", "s503"}[r.Intn(2)], "s200", "c", "c")
+			count("resend")
+		}
+		if tc.urlKind != "" {
+			count("url:" + tc.urlKind)
+		}
+		if strings.Contains(tc.url, "{") {
+			count("url:placeholder")
+		}
+		if strings.Contains(tc.url, "?") {
+			count("url:raw-query")
+		}
+		if tc.multipart && len(tc.cForm) > 0 {
+			count("multipart+clientform")
+		}
+		for _, h := range tc.headers {
+			if h.k == HeaderOderKey {
+				count("header-order")
+			}
+		}
 		if r.Intn(6) == 0 {
 			acts := []string{"N", "H" + verifh.Hex("X-Retry") + ":" + verifh.Hex("yes"), "K" + verifh.Hex("hk") + ":" + verifh.Hex("1"), "Q" + verifh.Hex("rq") + ":" + verifh.Hex("h")}
 			if tc.body[0] == 'b' && len(tc.form) == 0 && len(tc.cForm) == 0 {
@@ -1564,9 +2375,15 @@ func TestVerif_C10_wire(t *testing.T) {
 		if r.Intn(10) == 0 {
 			tc.after = []string{"F"}
 		}
+		// the retry option edited / the context cancelled in flight, on real request shapes
+		c10RandEdits(r, tc, 8)
+		if tc.dynamic() {
+			count("dynamic")
+		}
 		add(tc, mode)
 	}
-	for _, need := range []string{"retried:bytes", "retried:form", "retried:ordered", "retried:multipart-files", "retried:multipart-fields", "retried:getbody", "retried:marshal", "retried:none", "refused", "mode:reader"} {
+	for _, need := range []string{"retried:bytes", "retried:form", "retried:ordered", "retried:multipart-files", "retried:multipart-fields", "retried:getbody", "retried:marshal", "retried:marshal-xml", "retried:none", "refused", "mode:reader",
+		"url:r", "url:s", "url:placeholder", "url:raw-query", "multipart+clientform", "header-order", "jar:set-cookie", "resend"} {
 		if hist[need] == 0 {
 			t.Errorf("generator never reached bucket %s", need)
 		}
